@@ -101,7 +101,7 @@ CHECKS = {
    design="5/C08"),
  "C04": dict(
    text="Generated-input search with an independent oracle: ~300k random (calendar, date, modifier, flag) cases per quick run (12M thorough) over plain, combined and named calendars with arbitrary week masks and holiday runs aimed at month/year ends and settlement-only closures, plus a sweep of every date x modifier x flag over the 14 built-in calendars and 6 typical combinations (30-year window quick, all of 1970-2200 thorough, where it is exhaustive). Each result is compared with a day-by-day reference walk; fixed-point and idempotence laws are asserted. Exploration cannot show absence for arbitrary user calendars, but the built-in sweep is complete.",
-   note="is_bus_day of a plain calendar (a leaf) is ground truth for built-in parts (C07 decides the tables); midnight timestamps only; holiday runs <= 12 days.",
+   note="is_bus_day of a plain calendar (a leaf) is ground truth for built-in parts (C07 decides the tables); midnight timestamps only; holiday runs <= 160 days (mostly 1-12).",
    technique="property-based testing (proptest, shrinking) + exhaustive enumeration against a reference walk",
    design="5/C04"),
 }
